@@ -350,6 +350,9 @@ type err =
 | ELookupKind of string * string * string * string * string
 | ERawString of string
 | EKeyValueList
+| EJsonKey of string
+| EJsonValueList
+| ETagged of string
 | ERenderNonMapping of string
 | EResolving of err
 | EClassNotFound of string
@@ -433,6 +436,10 @@ val value_of_yaml : yaml -> value res
 
 val mapping_of_yaml : yaml -> mapping res
 
+val try_value_of_yaml : yaml -> value res
+
+val try_mapping_of_yaml : yaml -> mapping res
+
 type jvalue =
 | JNull
 | JBool of bool
@@ -461,6 +468,8 @@ val json_escape : string -> string
 val json_string : string -> string
 
 val print_json : jvalue -> string
+
+val check_json : value -> unit res
 
 val raw_string : value -> string res
 
@@ -538,6 +547,8 @@ val coalesce_rev : token list -> token list -> token list
 
 val coalesce : (token * token list) -> token list
 
+val mAX_REF_NESTING : nat
+
 val reference : nat -> token parser0
 
 val text : string parser0
@@ -549,8 +560,6 @@ val pstring : string parser0
 val item : nat -> token parser0
 
 val parse_ref_fuel : nat -> string -> token pres
-
-val parse_fuel : string -> nat
 
 val parse_ref : string -> token pres
 
@@ -719,6 +728,8 @@ type cls_entry = { ce_name : string; ce_doc : yaml; ce_loc : string list }
 val find_class : string -> cls_entry list -> cls_entry option
 
 val y_field : string -> (yaml * yaml) list -> yaml option
+
+val y_scalar_text : yaml -> string option
 
 val y_strings : yaml list -> string list option
 
